@@ -1,16 +1,318 @@
+import ActixNet.Model.Connect
 import Driver.Util
-/-! Engine `tls`: line protocol (stub — filled in by the owner of this engine). -/
+/-! Engine `tls`: line protocol for the connector model (C19) and the TLS acceptor model (C18).
+
+`case <name> kind=conn eps=L4,C4,L6,C6,..` declares loopback endpoints (live listener / closed port,
+IPv4 / IPv6).  Endpoint `i` is written `e<i>`; its port is written `@<i>` inside host strings and
+ports (the harness substitutes the real ephemeral port, the driver the stand-in `40000+i`; outputs are
+canonicalised back).  The per-address connect behaviour (`connectEnv`) is the environment table
+measured on this platform and re-checked by every correspondence run. -/
 namespace Driver.Tls
-open Driver
+open Driver ActixNet.Connect
+
+/-! ### small string helpers (on `List Char`) -/
+
+def splitOnChar (c : Char) (cs : List Char) : List (List Char) :=
+  match cs with
+  | [] => [[]]
+  | x :: t =>
+    match splitOnChar c t with
+    | [] => [[x]]
+    | g :: gs => if x = c then [] :: g :: gs else (x :: g) :: gs
+
+def stripPrefix (p : String) (s : String) : Option String :=
+  let pc := p.toList
+  let sc := s.toList
+  if sc.take pc.length = pc then some (String.ofList (sc.drop pc.length)) else none
+
+def stripSuffix (p : String) (s : String) : Option String :=
+  let pc := p.toList
+  let sc := s.toList
+  if pc.length ≤ sc.length ∧ sc.drop (sc.length - pc.length) = pc then some (String.ofList (sc.take (sc.length - pc.length))) else none
+
+/-- last occurrence split (`str::rsplit_once`) -/
+def rsplitOnce (c : Char) (s : String) : Option (String × String) :=
+  let r := s.toList.reverse
+  let suf := r.takeWhile (· ≠ c)
+  if suf.length < r.length then
+    some (String.ofList (r.drop (suf.length + 1)).reverse, String.ofList suf.reverse)
+  else none
+
+def allDigits (s : String) : Bool := !s.isEmpty && s.toList.all isDigit
+
+inductive EpKind where | L4 | C4 | L6 | C6
+deriving DecidableEq, Repr
+
+def EpKind.live : EpKind → Bool | .L4 | .L6 => true | _ => false
+def EpKind.v4 : EpKind → Bool | .L4 | .C4 => true | _ => false
+
+def parseKind : String → Option EpKind
+  | "L4" => some .L4 | "C4" => some .C4 | "L6" => some .L6 | "C6" => some .C6 | _ => none
+
+def fakePort (i : Nat) : Nat := 40000 + i
+def epAddr (i : Nat) (k : EpKind) : Addr := { ip := if k.v4 then "127.0.0.1" else "::1", port := fakePort i }
+
+structure ConnCase where
+  eps : List EpKind
+
+def ConnCase.addrOf (c : ConnCase) (i : Nat) : Option Addr := (c.eps[i]?).map (epAddr i)
+
+def ConnCase.epIndex (c : ConnCase) (a : Addr) : Option Nat :=
+  (List.range c.eps.length).find? fun i => c.addrOf i == some a
+
+/-- `@<i>` → stand-in port of endpoint `i`; a lone `~` is the empty string -/
+def ConnCase.subst (c : ConnCase) (s : String) : Option String :=
+  if s == "~" then some "" else
+  let rec go (fuel : Nat) (cs : List Char) (acc : List Char) : Option (List Char) :=
+    match fuel with
+    | 0 => none
+    | fuel + 1 =>
+      match cs with
+      | [] => some acc.reverse
+      | '@' :: t =>
+        let ds := t.takeWhile isDigit
+        if ds.isEmpty then none else
+        match (String.ofList ds).toNat? with
+        | some k => if k < c.eps.length then go fuel (t.drop ds.length) ((toString (fakePort k)).toList.reverse ++ acc) else none
+        | none => none
+      | x :: t => go fuel t (x :: acc)
+  (go (s.length + 1) s.toList []).map String.ofList
+
+def isV4 (ip : String) : Bool := isIpv4 ip.toList
+def parseIpD (s : String) : Option String := if isV4 s || s == "::1" then some s else none
+
+def ConnCase.canonPort (c : ConnCase) (p : Nat) : String :=
+  if 40000 ≤ p ∧ p < 40000 + c.eps.length then s!"@{p - 40000}" else toString p
+
+def ConnCase.canon (c : ConnCase) (a : Addr) : String :=
+  match c.epIndex a with
+  | some i => s!"e{i}"
+  | none => if isV4 a.ip then s!"{a.ip}:{c.canonPort a.port}" else s!"[{a.ip}]:{c.canonPort a.port}"
+
+/-- `e<i>` | `<ipv4>:<port>` | `[::1]:<port>` (after `@` substitution) -/
+def ConnCase.parseAddr (c : ConnCase) (s : String) : Option Addr :=
+  match stripPrefix "e" s with
+  | some r => if allDigits r then r.toNat?.bind c.addrOf else none
+  | none =>
+    match c.subst s with
+    | none => none
+    | some s =>
+      match rsplitOnce ':' s with
+      | none => none
+      | some (ip, p) =>
+        if !(allDigits p) then none else
+        match p.toNat? with
+        | none => none
+        | some pn =>
+          if pn > 65535 then none
+          else if isV4 ip then some { ip := ip, port := pn }
+          else if ip == "[::1]" then some { ip := "::1", port := pn }
+          else none
+
+/-- resolver script entry: fixed address, or ip + "the port passed to lookup" -/
+inductive AddrT where
+  | fixed (a : Addr)
+  | ipP (ip : String)
+
+def ConnCase.parseAddrT (c : ConnCase) (s : String) : Option AddrT :=
+  match stripSuffix ":P" s with
+  | some ip =>
+    let ip := if ip == "[::1]" then "::1" else ip
+    (parseIpD ip).map AddrT.ipP
+  | none => (c.parseAddr s).map AddrT.fixed
+
+def AddrT.inst (p : Nat) : AddrT → Addr
+  | .fixed a => a
+  | .ipP ip => { ip := ip, port := p }
+
+def parseList {α : Type} (f : String → Option α) (s : String) : Option (List α) :=
+  ((s.splitOn ";").filter (· ≠ "")).mapM f
+
+inductive Res where
+  | dflt (ips : List String)
+  | script (l : Option (List AddrT))   -- none = error
+
+inductive Step where
+  | port (p : Nat)
+  | addr (a : Option Addr)
+  | addrs (l : List Addr)
+  | loc (ip : String)
+
+structure ConnOp where
+  via : String
+  res : Res
+  host : Host
+  withA : Option Addr
+  steps : List Step
+
+def parseSteps (c : ConnCase) : List String → Option (List Step)
+  | [] => some []
+  | w :: ws =>
+    let st : Option Step :=
+      match stripPrefix "port=" w with
+      | some p => ((c.subst p).bind fun p => parseU16 p.toList).map Step.port
+      | none =>
+      match stripPrefix "addrs=" w with
+      | some l => (parseList c.parseAddr l).map Step.addrs
+      | none =>
+      match stripPrefix "addr=" w with
+      | some a => if a == "none" then some (Step.addr none) else (c.parseAddr a).map (fun x => Step.addr (some x))
+      | none =>
+      match stripPrefix "local=" w with
+      | some ip => (parseIpD ip).map Step.loc
+      | none => none
+    match st, parseSteps c ws with
+    | some s, some r => some (s :: r)
+    | _, _ => none
+
+def parseConnOp (c : ConnCase) (ws : List String) : Option ConnOp :=
+  match ws with
+  | _ :: via :: res :: host :: rest =>
+    if !(via == "full" || via == "resolve" || via == "tcp") then none else
+    let res? : Option Res :=
+      match stripPrefix "dflt=" res with
+      | some ips => some (Res.dflt ((ips.splitOn ";").filter (· ≠ "")))
+      | none =>
+        if res == "err" then some (Res.script none)
+        else match stripPrefix "ok=" res with
+          | some l => (parseList c.parseAddrT l).map (fun v => Res.script (some v))
+          | none => none
+    let host? : Option Host :=
+      match stripPrefix "s=" host with
+      | some s => (c.subst s).map hostOfString
+      | none =>
+        match stripPrefix "h=" host with
+        | some s =>
+          match rsplitOnce ',' s with
+          | some (h, p) =>
+            let p? : Option (Option Nat) :=
+              if p == "-" then some none else ((c.subst p).bind fun p => parseU16 p.toList).map some
+            match c.subst h, p? with
+            | some h, some p => some { hostname := h, port := p }
+            | _, _ => none
+          | none => none
+        | none => none
+    let (withA?, rest') : Option (Option Addr) × List String :=
+      match rest with
+      | w :: t =>
+        match stripPrefix "with=" w with
+        | some a => ((c.parseAddr a).map some, t)
+        | none => (some none, rest)
+      | [] => (some none, [])
+    match res?, host?, withA?, parseSteps c rest' with
+    | some res, some host, some withA, some steps => some { via := via, res := res, host := host, withA := withA, steps := steps }
+    | _, _, _, _ => none
+  | _ => none
+
+def buildReq (op : ConnOp) : Req :=
+  let r0 := match op.withA with
+    | some a => Req.withAddr op.host a
+    | none => Req.new op.host
+  op.steps.foldl (fun r s => match s with
+    | .port p => r.setPort p
+    | .addr a => r.setAddr a
+    | .addrs l => r.setAddrs l
+    | .loc ip => r.setLocal ip) r0
+
+def lookupOf (res : Res) (h : String) (p : Nat) : Lookup :=
+  match res with
+  | .dflt ips => if h == "localhost" then .ok (ips.map fun ip => { ip := ip, port := p }) else .fail
+  | .script none => .fail
+  | .script (some l) => .ok (l.map (AddrT.inst p))
+
+/-- Environment table (Linux loopback, measured; re-checked by every run): what one TCP connect does.
+The stream is identified by (peer address, local bind ip). -/
+def connectEnv (c : ConnCase) (loc : Option String) (a : Addr) : Except Nat (Addr × Option String) :=
+  let byKind : Except Nat (Addr × Option String) :=
+    match (c.epIndex a).bind (c.eps[·]?) with
+    | some k => if k.live then .ok (a, loc) else .error 111     -- ECONNREFUSED
+    | none => .error 111
+  match loc with
+  | none => byKind
+  | some l =>
+    if !(((l.toList.take 4 == "127.".toList) && isV4 l) || l == "::1") then .error 99   -- EADDRNOTAVAIL (bind)
+    else if isV4 l && !(isV4 a.ip) then .error 97    -- EAFNOSUPPORT
+    else if !(isV4 l) && isV4 a.ip then .error 22    -- EINVAL
+    else byKind
+
+def errStr : ConnectError → String
+  | .resolver => "resolver"
+  | .noRecords => "norecords"
+  | .invalidInput => "invalidinput"
+  | .unresolved => "unresolved"
+  | .io e => s!"io:{e}"
+
+def showHost (h : String) : String := if h.isEmpty then "~" else h
+
+def runConn (c : ConnCase) (op : ConnOp) : String :=
+  let r := buildReq op
+  let lookup := lookupOf op.res
+  let out : Option (List (String × Nat) × String × Option Addr) :=
+    if op.via == "resolve" then
+      let rs := resolve parseIpD lookup r
+      match rs.result with
+      | .ok r' => some (rs.lookups,
+          s!"ok addrs=[{";".intercalate (r'.addr.toList.map c.canon)}] host={showHost r'.hostname} port={c.canonPort r'.effPort}", none)
+      | .error e => some (rs.lookups, s!"err {errStr e}", none)
+    else
+      let cf : Option (Connected (Addr × Option String)) :=
+        if op.via == "tcp" then
+          (dial (connectEnv c r.localAddr) r.addr).map fun d => { result := d.result, lookups := [], tried := d.tried }
+        else connectFull parseIpD lookup (connectEnv c) r
+      match cf with
+      | none => none
+      | some cf =>
+        match cf.result with
+        | .ok (peer, loc) =>
+          let l := match loc with | some ip => s!" local={ip}" | none => ""
+          some (cf.lookups, s!"ok peer={c.canon peer}{l}", some peer)
+        | .error e => some (cf.lookups, s!"err {errStr e}", none)
+  match out with
+  | none => "panic"
+  | some (lks, res, peer) =>
+    let lk := match op.res with
+      | .dflt _ => "-"
+      | _ => "[" ++ ",".intercalate (lks.map fun (h, p) => s!"{showHost h}:{c.canonPort p}") ++ "]"
+    let acc := (List.range c.eps.length).map fun i =>
+      match c.eps[i]? with
+      | some k => if k.live then (if peer.isSome && peer == c.addrOf i then "1" else "0") else "-"
+      | none => "-"
+    s!"lk={lk} res={res} acc=[{",".intercalate acc}]"
+
+/-! ### engine -/
+
+inductive Case where
+  | none
+  | conn (c : ConnCase)
 
 structure State where
-  dummy : Nat := 0
+  case : Case := .none
 
 def init : State := {}
 
+def kvGet (k : String) (ws : List String) : Option String :=
+  (ws.filterMap fun w =>
+    match splitOnChar '=' w.toList with
+    | a :: b :: rest => if String.ofList a == k then some (String.ofList ("=".toList.intercalate (b :: rest))) else none
+    | _ => none).getLast?
+
 def step (st : State) (line : String) : State × String :=
   match words line with
-  | "case" :: _ => (init, "ok")
+  | "case" :: _ :: rest =>
+    match kvGet "kind" rest with
+    | some "conn" =>
+      let ks := parseList parseKind (((kvGet "eps" rest).getD "").replace "," ";")
+      match ks with
+      | some ks => if ks.length ≤ 8 ∧ rest.length = 2 then ({ case := .conn { eps := ks } }, "ok") else ({ case := .none }, "bad-op")
+      | none => ({ case := .none }, "bad-op")
+    | _ => ({ case := .none }, "bad-op")
+  | "conn" :: ws =>
+    match st.case with
+    | .conn c =>
+      match parseConnOp c ("conn" :: ws) with
+      | some op => (st, runConn c op)
+      | none => (st, "bad-op")
+    | _ => (st, "bad-op")
   | _ => (st, "bad-op")
 
 end Driver.Tls
